@@ -428,11 +428,14 @@ class Interp:
         it = self.eval(st.iter, frame)
         gen = it if isinstance(it, GenResult) and it.from_function else None
         items = self.iterate(it, in_loop=True)
+        single_pass = it if isinstance(it, GenResult) else None
         broke = False
         n = 0
         try:
             for x in items:
                 n += 1
+                if single_pass is not None:
+                    single_pass.pos += 1          # the element is taken from the iterator before the body runs
                 self.assign(st.target, x, frame)
                 try:
                     self.exec_block(st.body, frame)
@@ -984,7 +987,10 @@ class Interp:
                 # list(gen), sorted(gen), ...: the consumer has no effects of its own, the exception is what is left
                 exc, v.pending_exc = v.pending_exc, None
                 raise PyExc(exc)
-            return list(v.items[v.pos:])
+            rest = list(v.items[v.pos:])
+            if not in_loop:
+                v.pos = len(v.items)          # an iterator is used up by whoever reads it to its end (the `for` statement counts itself)
+            return rest
         if isinstance(v, PDict):
             return [k for k, _ in v.pairs]
         if isinstance(v, PSet):
